@@ -77,6 +77,14 @@ def _post_eval(engine, st, ctx, out):
     r = engine.to_val(st, out)
     cl.append(("the value in force is one the count callable returned (the last good value when it raises)", "PC", was_returned(r), ["C07", "C18"]))
     cl.append(("the value in force is an int or None", "TY", engine.ty_formula(st, r, OPT("int")), ["C07"]))
+    # `the value the count callable most recently returned to the executor`: every returned value is remembered in _last_throttle,
+    # a raising callable leaves the remembered value alone
+    ws = [e for e in st.trace if e.kind == "write" and e.meth == "_last_throttle"]
+    if calls and getattr(calls[0], "exc", None) is None and calls[0].ret is not None:
+        cl.append(("a value returned by the count callable becomes the remembered one (_last_throttle), so that a later failure falls back to the MOST RECENT value", "PC",
+                   z3.And(z3.BoolVal(len(ws) == 1), ws[0].args[0] == calls[0].ret) if ws else z3.BoolVal(False), ["C07"]))
+    else:
+        cl.append(("a raising count callable leaves the remembered value (_last_throttle) alone", "PC", z3.BoolVal(not ws), ["C07", "C18"]))
     return cl
 
 
@@ -251,7 +259,18 @@ def _cfg_iter():
         ok = len(calls) == 1
         return [("each committed job is handed to _do_submit exactly once, in list order",
                  z3.And(z3.BoolVal(ok), calls[0].args[1] == x) if ok else z3.BoolVal(False))]
-    cfg.loops[("more_executors._impl.throttle._submit_loop_iter", 1)] = LoopSpec(body_post=handover_post)
+
+    def handover_entry(engine, st, fr, ctx):
+        # the point after `if to_submit: _space_event.set()`: the local list holds exactly the jobs taken out of the queue in this
+        # iteration (commit_post: one pop = one append), so a non-empty list means the queue got shorter
+        env = st.envs[fr.eid]
+        sid = Val.id(env["executor"].t)
+        loc = Val.id(env["to_submit"].t)
+        space = Val.id(st.get("_space_event", sid))
+        sets = [e for e in st.trace if e.kind == "event-set" and z3.is_true(z3.simplify(e.recv == space))]
+        return [("jobs were taken out of the queue in this iteration => a submit() blocked on the full queue has been woken (its event is set after the removals)",
+                 z3.Implies(st.get("$len", loc) > 0, z3.BoolVal(bool(sets))))]
+    cfg.loops[("more_executors._impl.throttle._submit_loop_iter", 1)] = LoopSpec(body_post=handover_post, at_entry=handover_entry)
     return cfg
 
 
@@ -313,7 +332,7 @@ def _commit_loop():
     return LoopSpec()
 
 
-UNITS.append(Unit("_submit_loop_iter", "throttle._submit_loop_iter", ["C07", "C03", "C18", "C20"], _setup_iter, _post_iter, cfg=_cfg_iter))
+UNITS.append(Unit("_submit_loop_iter", "throttle._submit_loop_iter", ["C07", "C03", "C18", "C20", "C11", "C12"], _setup_iter, _post_iter, cfg=_cfg_iter))
 
 
 # ---- _do_submit: hand one job to the delegate -----------------------------------------------------
